@@ -257,7 +257,12 @@ Definition do_create (s : state) (owner chain rev : Z) (ini : option (Z * Z * Z)
 (* UpdateConsumer, the block handling msg.InitializationParameters; inr = the handler returns that error *)
 Definition apply_ini (s2 : state) (c phase0 prev : Z) (ini : option (Z * Z * Z)) : state + Z :=
   match ini with
-  | None => inl s2
+  | None =>
+    (* no new initialization parameters: the stored initial height must match the (possibly new) chain id *)
+    match get s2 c with
+    | Some r => if d_hrev (c_desc r) =? d_rev (c_desc r) then inl s2 else inr r_update
+    | None => inl s2
+    end
   | Some (spawn, hrev, conn) =>
     if negb (is_prelaunched phase0) then inr r_update
     else
@@ -502,7 +507,7 @@ Definition dec_eora (t : tree) : Z * eora :=
 
 Definition dec_op (t : tree) : op :=
   let a n := tz (tnth n t) in
-  match a 0%nat with
+  match Z.abs (a 0%nat) with
   | 1 => OCreate (a 1%nat) (a 2%nat) (a 3%nat) (dec_ini (tnth 4 t))
   | 2 => OUpdate (a 1%nat) (a 2%nat) (dec_pair (tnth 3 t)) (to_optz (tnth 4 t)) (dec_ini (tnth 5 t))
   | 3 => ORemove (a 1%nat) (a 2%nat)
@@ -535,18 +540,23 @@ Definition residual (r : consumer) : list Z :=
      b (negb (p_valset p =? 0)) [31] ++ b (negb (p_pending p =? 0)) [17] ++ b (negb (p_removal p =? 0)) [50] ++
      b (match p_optin p with [] => false | _ => true end) [32] ++ p_extra p).
 
-Fixpoint run_ops (U : Z) (s : state) (ops : list op) : list tree * state :=
+(* an op with a negative tag is "quiet": executed, but no observation is emitted after it (bulk set-up of the
+   histories with hundreds of consumers) *)
+Definition dec_quiet (t : tree) : bool := tz (tnth 0 t) <? 0.
+Definition dec_qop (t : tree) : bool * op := (dec_quiet t, dec_op t).
+
+Fixpoint run_ops (U : Z) (s : state) (ops : list (bool * op)) : list tree * state :=
   match ops with
   | [] => ([], s)
-  | o :: t =>
+  | (quiet, o) :: t =>
     let (s', code) := exec U s o in
     let (obs, sf) := run_ops U s' t in
-    (enc_obs code s' :: obs, sf)
+    (if quiet then obs else enc_obs code s' :: obs, sf)
   end.
 
 Definition run (input : tree) : tree :=
   let U := tz (tnth 0 input) in
-  let ops := map dec_op (tlist (tnth 1 input)) in
+  let ops := map dec_qop (tlist (tnth 1 input)) in
   let (obs, sf) := run_ops U init_state ops in
   TL [TL obs; TL (map (fun r => of_zs (residual r)) (s_cons sf))].
 
@@ -645,10 +655,11 @@ Definition targets (o : op) (c : Z) : bool :=
   match o with ODecorate c' _ => c' =? c | OChannel c' => c' =? c | _ => false end.
 
 (* clauses about one step; [stops] = first stop time per stopped consumer; returns the new [stops] too *)
-Definition mon_step (U now : Z) (stops : list (Z * Z)) (o : op) (code : Z) (a b : state) : list Z * list (Z * Z) :=
+Definition mon_step (U now qc : Z) (stops : list (Z * Z)) (o : op) (code : Z) (a b : state) : list Z * list (Z * Z) :=
   let created := match o with OCreate _ _ _ _ => code =? 0 | _ => false end in
+  let lo := s_next a + (if created then 1 else 0) in
   let c1 := flag 1 (zlist_eqb (map c_id (s_cons b)) (zseq 0 (Z.to_nat (s_next b))) &&
-                    (s_next b =? s_next a + (if created then 1 else 0))) in
+                    (lo <=? s_next b) && (s_next b <=? lo + qc)) in
   let per (f : consumer -> consumer -> bool) : bool :=     (* f old new, for consumers that existed before *)
     forallb (fun r => match get a (c_id r) with Some r0 => f r0 r | None => true end) (s_cons b) in
   let c2 := flag 2 (forallb (fun r => edge_ok (phase_of a (c_id r)) (c_phase r)) (s_cons b)) in
@@ -696,21 +707,29 @@ Definition mon_step (U now : Z) (stops : list (Z * Z)) (o : op) (code : Z) (a b 
       if (phase_of a (c_id r) =? 3) && (c_phase r =? 4) then (c_id r, now) :: acc else acc) (s_cons b) stops in
   (c1 ++ c2 ++ c6 ++ c7 ++ c8 ++ c9 ++ sched ++ mon_snapshot b, stops').
 
-Fixpoint mon_ops (U now : Z) (stops : list (Z * Z)) (a : state) (ops : list op) (obs : list tree) : list Z * state :=
-  match ops, obs with
-  | o :: ops', t :: obs' =>
-    let (code, b) := dec_obs t in
+(* [qc] = number of quiet create ops since the last observation *)
+Fixpoint mon_ops (U now qc : Z) (stops : list (Z * Z)) (a : state) (ops : list (bool * op)) (obs : list tree)
+  : list Z * state :=
+  match ops with
+  | [] => ([], a)
+  | (quiet, o) :: ops' =>
     let now' := match o with OBegin t' _ => t' | _ => now end in
-    let (bad, stops') := mon_step U now' stops o code a b in
-    let (bad', sf) := mon_ops U now' stops' b ops' obs' in
-    (bad ++ bad', sf)
-  | _, _ => ([], a)
+    if quiet then mon_ops U now' (qc + match o with OCreate _ _ _ _ => 1 | _ => 0 end) stops a ops' obs
+    else
+      match obs with
+      | [] => ([], a)
+      | t :: obs' =>
+        let (code, b) := dec_obs t in
+        let (bad, stops') := mon_step U now' qc stops o code a b in
+        let (bad', sf) := mon_ops U now' 0 stops' b ops' obs' in
+        (bad ++ bad', sf)
+      end
   end.
 
 Definition mon (input implobs : tree) : tree :=
   let U := tz (tnth 0 input) in
-  let ops := map dec_op (tlist (tnth 1 input)) in
-  let (bad, sf) := mon_ops U 0 [] init_state ops (tlist (tnth 0 implobs)) in
+  let ops := map dec_qop (tlist (tnth 1 input)) in
+  let (bad, sf) := mon_ops U 0 0 [] init_state ops (tlist (tnth 0 implobs)) in
   let res := map tzs (tlist (tnth 1 implobs)) in
   let c12 := flag 12 (Nat.eqb (length res) (length (s_cons sf)) &&
                       forallb (fun p => zlist_eqb (fst p) (residual (snd p))) (combine res (s_cons sf))) in
